@@ -339,8 +339,17 @@ func (r *RegionScatterer) selectCandidates(region *core.RegionInfo, sourceStoreI
 		log.Error("failed to get the store", zap.Uint64("store-id", sourceStoreID), errs.ZapError(errs.ErrGetSourceStore))
 		return nil
 	}
+	// A peer may only move to a store that has neither been selected for another peer of this region
+	// nor holds another peer of it: that peer may still decide to stay where it is.
+	otherPeerStores := make(map[uint64]struct{}, len(region.GetPeers()))
+	for _, p := range region.GetPeers() {
+		if p.GetStoreId() != sourceStoreID {
+			otherPeerStores[p.GetStoreId()] = struct{}{}
+		}
+	}
 	filters := []filter.Filter{
 		filter.NewExcludedFilter(r.name, nil, selectedStores),
+		filter.NewExcludedFilter(r.name, nil, otherPeerStores),
 	}
 	scoreGuard := filter.NewPlacementSafeguard(r.name, r.cluster, region, sourceStore)
 	filters = append(filters, context.filters...)
